@@ -425,6 +425,18 @@ theorem commutes_with_general_iff_partial (atol rtol : Rat) (ha : 0 ≤ atol) (n
       ∀ s t, s < 2 ^ n → melM (mmul a b) t s = melM (mmul b a) t s :=
   commutes_general_iff atol rtol ha n a b sa sb hexact
 
+/-- full-strength form of the previous theorem: the exact-regime hypothesis is the decidable test
+`majExactB` that the driver evaluates on every generated input (`exact_regime` in the answer of
+`c02.commutes`; the harness counts the inputs on which it holds): under it,
+`self * other == other * self` is True iff the two products have the same Spec matrix elements. -/
+theorem commutes_with_general_iff (atol rtol : Rat) (ha : 0 ≤ atol) (n : Nat) (a b : MOp)
+    (sa : ∀ e ∈ a, e.1.Pairwise (· < ·) ∧ ∀ m ∈ e.1, m < 2 * n)
+    (sb : ∀ e ∈ b, e.1.Pairwise (· < ·) ∧ ∀ m ∈ e.1, m < 2 * n)
+    (hx : majExactB atol rtol (mmul a b) (mmul b a) = true) :
+    majEq atol rtol (mmul a b) (mmul b a) = true ↔
+      ∀ s t, s < 2 ^ n → melM (mmul a b) t s = melM (mmul b a) t s :=
+  commutes_general_iff_exactB atol rtol ha n a b sa sb hx
+
 /-! ## `is_hermitian(InteractionOperator)` -/
 
 /-- FULL STATEMENT: `is_hermitian(InteractionOperator)` is True iff the denoted operator is
@@ -450,5 +462,18 @@ theorem is_hermitian_io_sound_partial {A : Type} [Ring A] (I : Proofs.C03.Interp
     Proofs.C03.denIO I n c one two =
       Proofs.C03.denIO I n c.conj (hcOneBody n one) (hcTwoBody n two) :=
   Proofs.C03.isHermitianIO_sound I car_same car_sq tol n c one two hlen hexact h
+
+/-- the same soundness statement under the decidable per-input test `ioExactB` that the driver
+evaluates on every generated InteractionOperator (`exact_regime` in the answer of
+`c02.hermitian_io`; the harness counts it). -/
+theorem is_hermitian_io_sound {A : Type} [Ring A] (I : Proofs.C03.Interp A)
+    (car_same : ∀ x l : Factor, x.2 = l.2 → x.1 ≠ l.1 → I.g l * I.g x + I.g x * I.g l = 0)
+    (car_sq : ∀ x l : Factor, x.2 = l.2 → x.1 = l.1 → I.g l * I.g x = 0)
+    (tol : Rat) (n : Nat) (c : GQ) (one two : List GQ) (hlen : one.length = n * n)
+    (hx : ioExactB tol n c one two = true) (h : isHermitianIO tol n c one two = true) :
+    Proofs.C03.denIO I n c one two =
+      Proofs.C03.denIO I n c.conj (hcOneBody n one) (hcTwoBody n two) :=
+  Proofs.C03.isHermitianIO_sound I car_same car_sq tol n c one two hlen
+    (Proofs.C03.hexact_of_ioExactB tol n c one two hlen hx) h
 
 end OFV.C02
